@@ -99,6 +99,21 @@ func TestC15(t *testing.T) {
 	p = c.rec.NewPart("alias_rune_near_misses", "black attribute name + separator + multi-byte character whose code point truncates to a structural byte + value", false, true, "")
 	c.ParRange(p, int64(len(al)), func(w *Worker, i int64) { judge(w, al[i]) })
 
+	var cf []string
+	for i, v := range vec {
+		if i%9 == 0 {
+			for k := 0; k < 4; k++ {
+				cf = append(cf, gen.Confuse(v, k))
+			}
+			cf = append(cf, gen.Fullwidth(c15Drop.Replace(v)), gen.Confuse(gen.Fullwidth(v), 0))
+		}
+	}
+	for _, t := range []string{"\u898b\u51fa\u3057\u306f\uff1cstyle\uff1e\u3067\u56f2\u307f\u307e\u3059", "\u304a\u3059\u3059\u3081 style\uff1d\u30b7\u30f3\u30d7\u30eb", "\uff1cscript\uff1ealert(1)\uff1c/script\uff1e", "a \uff1c b and onclick \uff1d c"} {
+		cf = append(cf, t)
+	}
+	p = c.rec.NewPart("confusable_near_misses", "every 9th grammar vector with its structural bytes replaced by fullwidth / small-form / typographic look-alikes, and with fullwidth names", false, true, "")
+	c.ParRange(p, int64(len(cf)), func(w *Worker, i int64) { judge(w, c15Strip.Replace(cf[i])) })
+
 	g := gen.HTMLInput()
 	p = c.rec.NewPart("rapid_fragments", "rapid: fragment grammar / mutated vector with the two bytes replaced by a drawn substitute", true, false, "")
 	c.Rapid(p, 8, pick(100000, 1000000), func(rt *rapid.T, sh int) ev.Case {
